@@ -346,7 +346,8 @@ def main(run: core.Run):
     run.assumptions += ['simdist (validated against gloo in the thorough '
                         'tier, see DESIGN 2.7) stands in for the backend',
                         'tensor values from a fixed lattice']
-    run.exhaustive = not run.caps
+    run.cap('the configuration sweep runs under fixed schedules; rank '
+            'interleavings are exhaustive only in the listed explorations')
 
 
 def replay(run, data):
